@@ -49,6 +49,34 @@ def build_files(fd):
             (6, "CD1"), (6, "CD2")}
     open(os.path.join(fd, "d.pdb"), "w").write(gen.pdb_text([gen.peptide(seq, omit=omit)]))
     open(os.path.join(fd, "junk.pdb"), "w").write("\x00\x01 not a structure\nfoo bar\n")
+    # a readable structure among records that cannot be parsed (several record types), and a well-formed two-model file
+    good = gen.pdb_text([pep + wat]).split("\n")
+    bad = ["MODEL 1", "SSBOND this is not an ssbond record", "CONECT abc def", "HET    ???", "SITE   x", "CISPEP  oops", "HELIX bad", "SHEET bad",
+           "REMARK", "ANISOU   xx", "SEQRES nothing", "LINK  bad", "MODRES ?", "CRYST1 a b c", "ORIGX1 a", "SCALE1 b", "MTRIX1 c", "TVECT d"]
+    open(os.path.join(fd, "e.pdb"), "w").write("\n".join(bad + good))
+    m1 = gen.peptide(["ALA", "SER", "LYS", "GLY"])
+    m2 = gen.transform(m1, t=(0.4, -0.3, 0.2))
+    body = lambda atoms: gen.pdb_text([atoms], end=False).rstrip("\n")
+    open(os.path.join(fd, "m.pdb"), "w").write(f"MODEL        1\n{body(m1)}\nENDMDL\nMODEL        2\n{body(m2)}\nENDMDL\nEND\n")
+    # mmCIF inputs: one without the optional insertion-code column, one with insertion codes
+    from . import c10
+    rows = dict(c10.structures(random.Random(0)))
+    plain_cif = c10.cif_text(rows["plain"])
+    lines, drop = [], c10.ITEMS.index("pdbx_PDB_ins_code")
+    for ln in plain_cif.split("\n"):
+        if ln.strip() == "_atom_site.pdbx_PDB_ins_code":
+            continue
+        w = ln.split()
+        if len(w) == len(c10.ITEMS) and w[0] in ("ATOM", "HETATM"):
+            ln = " ".join(w[:drop] + w[drop + 1:]) + " "
+        lines.append(ln)
+    open(os.path.join(fd, "x1.cif"), "w").write("\n".join(lines))
+    open(os.path.join(fd, "x2.cif"), "w").write(c10.cif_text(rows["insertion-codes"]))
+    # ligand complexes
+    for nm, mol in (("l1", "ethanol.mol2"), ("l2", "acetate.mol2")):
+        shutil.copy(os.path.join(DATA, mol), os.path.join(fd, nm + ".mol2"))
+        lig = gen.ligand_hetatm(os.path.join(DATA, mol), move_to=(-14, -12, 6))
+        open(os.path.join(fd, nm + ".pdb"), "w").write(gen.pdb_text([gen.peptide(["ALA", "SER", "LYS"]), lig, gen.water((6, 14, 4), resseq=101)]))
     return {
         "A": {"input": "a.pdb", "args": ["--ff=AMBER"]},
         "B": {"input": "b.pdb", "args": ["--ff=PARSE", "--whitespace", "--keep-chain"]},
@@ -59,6 +87,12 @@ def build_files(fd):
         "F1": {"input": "junk.pdb", "args": ["--ff=AMBER"]},
         "F2": {"input": "a.pdb", "args": ["--ff=AMBER", "--assign-only"]},
         "P": {"input": "a.pdb", "args": ["--ff=CHARMM", "--titration-state-method=propka", "--with-ph=4", "--ffout=AMBER"]},
+        "E": {"input": "e.pdb", "args": ["--ff=AMBER"]},
+        "M": {"input": "m.pdb", "args": ["--ff=AMBER", "--nodebump"]},
+        "X1": {"input": "x1.cif", "args": ["--ff=AMBER"]},
+        "X2": {"input": "x2.cif", "args": ["--ff=PARSE"]},
+        "L1": {"input": "l1.pdb", "args": ["--ff=AMBER", "--ligand=@DIR@/l1.mol2"]},
+        "L2": {"input": "l2.pdb", "args": ["--ff=AMBER", "--ligand=@DIR@/l2.mol2", "--keep-chain"]},
     }
 
 
@@ -81,15 +115,15 @@ def _work(job):
 
 def run(ctx):
     rng = random.Random(ctx.seed)
-    ctx.rule = ("histories <= 3 runs over nine configurations (two built-in force-field runs, a --usernames variant of the "
+    ctx.rule = ("histories <= 3 runs over fifteen configurations (two built-in force-field runs, a --usernames variant of the "
                 "same --ff, two user force fields, an input needing multi-atom repair, a run failing in parsing, a run "
-                "failing in the charge check, a PROPKA run), each in a fresh interpreter x hash seeds; quick: all of length "
+                "failing in the charge check, a PROPKA run, an input among unparseable records, a two-model file, two mmCIF inputs with different optional columns, two ligand complexes), each in a fresh interpreter x hash seeds; quick: all of length "
                 "<= 2 plus a seeded sample of length 3.  Distinct = distinct (history, seed); non-trivial = length >= 2")
     ctx.assumptions += ["hash seeds are sampled (seeded by VERIF_SEED), not exhausted",
                         "the verdict is on the bytes of the PQR file (or the exception class) only"]
     ctx.trusted += ["vlib/histchild.py", "TLC 1.8"]
     cfg = os.path.join(ctx.work, "h.cfg")
-    names = ["A", "B", "C", "U1", "U2", "D", "F1", "F2", "P"]
+    names = ["A", "B", "C", "U1", "U2", "D", "F1", "F2", "P", "E", "M", "X1", "X2", "L1", "L2"]
 
     def cfg_text(leak, emit, invs, maxruns=3):
         s = ("SPECIFICATION Spec\nCONSTANTS\n  Configs = {" + ", ".join(json.dumps(n) for n in names) + "}\n"
@@ -111,15 +145,15 @@ def run(ctx):
     core.need_ok(r, "History emit")
     ctx.add_tlc(r, "history emission")
     hists = [json.loads(v[1:]) for v in r.printed if isinstance(v, str) and v.startswith("@")]
-    if len(hists) != 9 + 81 + 729:
+    if len(hists) != 15 + 15 ** 2 + 15 ** 3:
         raise core.MachineryError(f"emitted {len(hists)} histories")
     files = os.path.join(ctx.work, "files")
     configs = build_files(files)
     short = [h for h in hists if len(h) <= 2]
     long_ = [h for h in hists if len(h) == 3]
     rng.shuffle(long_)
-    chosen = short + (long_[:70] if ctx.quick else long_)
-    seeds = [rng.randrange(1, 2 ** 31) for _ in range(2 if ctx.quick else 4)] + [0]
+    chosen = short + (long_[:90] if ctx.quick else long_[:1500])
+    seeds = [rng.randrange(1, 2 ** 31) for _ in range(1 if ctx.quick else 3)] + [0]
     jobs = []
     for i, h in enumerate(chosen):
         for k, sd in enumerate(seeds if len(h) > 1 or not ctx.quick else seeds[:2]):
